@@ -14,7 +14,7 @@ PROP = "C20"
 
 TIERS = {
     # runs: number of seeds; budget_s: wall guard (no new run is issued after it)
-    "quick": {"runs": 4000, "budget_s": 150},
+    "quick": {"runs": 9000, "budget_s": 150},
     "thorough": {"runs": 120000, "budget_s": 1500},
 }
 
@@ -23,23 +23,30 @@ def evaluate(plan: dict, script: Optional[list] = None, explain: bool = True) ->
     """Run baseline + simulation (+ what is needed to judge) for one plan.
 
     Runs in a pristine process (worker or coordinator); forks every execution."""
-    base = proc.fork_call(engine.child_serial, plan, None, True)
     opcode_crash = False
-    try:
-        sim = proc.fork_call(engine.child_simulate, plan, script)
-    except proc.HarnessError as e:
-        # CPython 3.12.1 can segfault under opcode-level tracing (instrumentation of a code object
-        # while another thread is parked inside it; generator frames; exception tables).  The
-        # crash is the interpreter's, not the tree's: fall back to line granularity for this plan
-        # and count it.  A crash at line granularity stays a harness error.
-        if not plan.get("opcode") or "exited with status" not in str(e):
-            raise
-        opcode_crash = True
-        plan = dict(plan, opcode=False)
-        sim = proc.fork_call(engine.child_simulate, plan, script)
-    base_nf = None
-    if plan.get("fault"):
-        base_nf = proc.fork_call(engine.child_serial, plan, None, False)
+    base = sim = base_nf = None
+    if plan.get("prefill"):
+        trio = proc.fork_call(engine.child_warm, plan, script, timeout=4 * proc.CHILD_TIMEOUT_S)
+        if "sim_error" not in trio:
+            base, sim, base_nf = trio["base"], trio["sim"], trio["base_nf"]
+        # else: the simulation child died (opcode tracing): take the ordinary path with its fallback
+    if sim is None:
+        base = proc.fork_call(engine.child_serial, plan, None, True)
+        try:
+            sim = proc.fork_call(engine.child_simulate, plan, script)
+        except proc.HarnessError as e:
+            # CPython 3.12.1 can segfault under opcode-level tracing (instrumentation of a code object
+            # while another thread is parked inside it; generator frames; exception tables).  The
+            # crash is the interpreter's, not the tree's: fall back to line granularity for this plan
+            # and count it.  A crash at line granularity stays a harness error.
+            if not plan.get("opcode") or "exited with status" not in str(e):
+                raise
+            opcode_crash = True
+            plan = dict(plan, opcode=False)
+            sim = proc.fork_call(engine.child_simulate, plan, script)
+        base_nf = None
+        if plan.get("fault"):
+            base_nf = proc.fork_call(engine.child_serial, plan, None, False)
     v = engine.compare(plan, base, sim, base_nf)
     explained = False
     if v is not None and explain and v["class"] not in ("deadlock", "step-cap", "missing-result"):
